@@ -29,6 +29,7 @@ func init() {
 		Rule: "case = one generated package (stores of every policy incl. delete_prefix, some back-filled by tier2 before the fork zone) x one fork tree of 5..8 heights above a final base block (<=3 siblings per height, 1..4 forks of random length from random fork points, flip-flop prone because branches overtake each other, monotone LIB per branch) x a PRNG arrival order (linear extension of parent-before-child with occasional child-before-parent), " +
 			"turned into new/undo/stalled/final steps by the real bstream forkable.Forkable and fed to a development-mode tier1 request. Monitors: after EVERY step the harness holds the stack of applied block ids; typed content of every store must equal a fresh REF-LINEAR run over exactly that chain and SizeBytes() must equal the store's own content size; " +
 			"client model over the response stream: keeps data messages, drops blocks above last_valid_block on an undo signal; every undo designates a held block (or the one before the first), its cursor decodes to it, no two blocks at one height without an undo in between, and at the end the client holds exactly the reference outputs of the canonical chain. " +
+			"reconnection: for up to two data messages whose block was forked out later, a new request carries that block's cursor (cursor resolver = the tree, hook H9; linear feed = the canonical chain): the first message after the session must be one undo signal designating the junction with the canonical chain (cursor included), the resolved start is junction+1, and the client - holding what it held at that message - must again end with exactly the reference outputs of the canonical chain. " +
 			"non-trivial = history with at least one undo of a block whose deltas contain a delete, a create or a size-changing update; counted separately: same block undone twice",
 		Assumptions: []string{
 			"the step sequence is whatever the real forkable emits for the generated arrival order (filters = all steps)",
@@ -470,6 +471,213 @@ func runForkHistory(c *fw.Case, prop string) {
 	}
 	if nt {
 		c.Nontrivial(fmt.Sprintf("%v|%v|%d", s.pkg.Describe(), tree.Arrival, start))
+	}
+
+	// ---- reconnection: a client that disconnected while holding a block that was forked out afterwards comes back with that
+	// block's cursor. The server must answer with an undo signal for the junction with the canonical chain, restart right after
+	// it, and the client must again end with exactly the reference outputs of the canonical chain.
+	if prop == "C03" {
+		canonical := map[string]bool{}
+		for n := uint64(0); n <= base; n++ {
+			canonical[sim.BlockID(n)] = true
+		}
+		canonPath := tree.Path(finalTop)
+		for _, id := range canonPath {
+			canonical[id] = true
+		}
+		type cand struct {
+			cursor string
+			id     string
+			num    uint64
+			held   []held
+		}
+		var cands []cand
+		var cl2 []held
+		for _, r := range res.Responses {
+			switch m := r.Message.(type) {
+			case *pbsubstreamsrpc.Response_BlockScopedData:
+				d := m.BlockScopedData
+				var payload []byte
+				if d.Output != nil && d.Output.MapOutput != nil {
+					payload = d.Output.MapOutput.Value
+				}
+				cl2 = append(cl2, held{d.Clock.Number, d.Clock.Id, payload})
+				if !canonical[d.Clock.Id] {
+					cands = append(cands, cand{d.Cursor, d.Clock.Id, d.Clock.Number, append([]held(nil), cl2...)})
+				}
+			case *pbsubstreamsrpc.Response_BlockUndoSignal:
+				kept := cl2[:0:0]
+				for _, h := range cl2 {
+					if h.num <= m.BlockUndoSignal.LastValidBlock.Number {
+						kept = append(kept, h)
+					}
+				}
+				cl2 = kept
+			}
+		}
+		c.R.Shuffle(len(cands), func(i, j int) { cands[i], cands[j] = cands[j], cands[i] })
+		if len(cands) > 2 {
+			cands = cands[:2]
+		}
+		for _, cd := range cands {
+			// junction: deepest ancestor of the forked block on the canonical chain
+			jid, jnum := cd.id, cd.num
+			for !canonical[jid] {
+				n := tree.Node(jid)
+				if n == nil {
+					break
+				}
+				jid, jnum = n.Parent, n.Num-1
+			}
+			if !canonical[jid] {
+				continue
+			}
+			resolver := func(ctx context.Context, cur *bstream.Cursor) (bstream.BlockRef, bstream.BlockRef, error) {
+				id, num := cur.Block.ID(), cur.Block.Num()
+				for !canonical[id] {
+					n := tree.Node(id)
+					if n == nil {
+						return nil, nil, fmt.Errorf("harness: unknown block %s", id)
+					}
+					id, num = n.Parent, n.Num-1
+				}
+				return bstream.NewBlockRef(id, num), bstream.NewBlockRef(finalTop, topNum), nil
+			}
+			feed2 := func(ctx context.Context, h bstream.Handler, from, stopNum uint64, cursor string) error {
+				for n := from; ; n++ {
+					if err := ctx.Err(); err != nil {
+						return err
+					}
+					var id, parent string
+					var obj *sim.Obj
+					var lib uint64
+					if n <= base {
+						id = sim.BlockID(n)
+						if n > 0 {
+							parent = sim.BlockID(n - 1)
+						}
+						ref := bstream.NewBlockRef(id, n)
+						lib = n
+						obj = &sim.Obj{Cur: &bstream.Cursor{Step: bstream.StepNewIrreversible, Block: ref, LIB: ref, HeadBlock: ref}, StepType: bstream.StepNewIrreversible}
+					} else {
+						k := int(n - base - 1)
+						if k > len(canonPath)+2 {
+							return fmt.Errorf("harness: canonical chain exhausted before the stop block")
+						}
+						for k >= len(canonPath) { // the block that ends the request (the stop block itself is not executed)
+							lastID, lastNum := sim.BlockID(base), base
+							if len(canonPath) > 0 {
+								lastID = canonPath[len(canonPath)-1]
+								lastNum = tree.Node(lastID).Num
+							}
+							canonPath = append(canonPath, tree.Extend(lastID, lastNum, base).ID)
+						}
+						nd := tree.Node(canonPath[k])
+						id, parent, lib = nd.ID, nd.Parent, base
+						ref := bstream.NewBlockRef(id, n)
+						obj = &sim.Obj{Cur: &bstream.Cursor{Step: bstream.StepNew, Block: ref, LIB: bstream.NewBlockRef(sim.BlockID(base), base), HeadBlock: ref}, StepType: bstream.StepNew}
+					}
+					if err := h.ProcessBlock(sim.MakeBlock(n, id, parent, lib), obj); err != nil {
+						return err
+					}
+				}
+			}
+			rq := spec
+			rq.Cursor = cd.cursor
+			rq.LinearFeed = feed2
+			rq.CursorResolver = resolver
+			rq.OrderSeed = 1 + c.R.Int63n(1<<40)
+			if pl, err := s.cl.PlanFor(rq); err != nil || pl.KnownHangShape() {
+				continue
+			}
+			rr := s.cl.Run(rq)
+			c.Count("reconnections_with_forked_cursor", 1)
+			ex := map[string]any{"reconnect_cursor_block": fmt.Sprintf("%d %s", cd.num, cd.id), "junction": fmt.Sprintf("%d %s", jnum, jid), "canonical_chain": chain}
+			if rr.Stuck {
+				viol("reconnect/request-stuck", "request resumed from the cursor of a forked block made no progress for 45 s", wit(ex))
+				return
+			}
+			if rr.Err != nil {
+				if strings.Contains(rr.Err.Error(), "harness:") {
+					c.Inconclusive("harness feed: " + rr.Err.Error())
+					return
+				}
+				viol("reconnect/request-failed/"+fw.NormalizeMsg(rr.Err.Error()), "request resumed from the cursor of a forked block failed: "+rr.Err.Error(), wit(ex))
+				return
+			}
+			client2 := append([]held(nil), cd.held...)
+			sawUndo, sawData := false, false
+			for _, r := range rr.Responses {
+				switch m := r.Message.(type) {
+				case *pbsubstreamsrpc.Response_BlockUndoSignal:
+					u := m.BlockUndoSignal
+					if sawData || sawUndo {
+						viol("reconnect/undo-signal-out-of-place", "the undo signal for a forked cursor must come once, before any data", wit(ex))
+						return
+					}
+					sawUndo = true
+					cur, err := bstream.CursorFromOpaque(u.LastValidCursor)
+					if u.LastValidBlock.Id != jid || u.LastValidBlock.Number != jnum || err != nil || cur.Block.ID() != jid {
+						viol("reconnect/undo-wrong-junction", fmt.Sprintf("undo signal designates %d %s (cursor %v), the junction of block %s with the canonical chain is %d %s", u.LastValidBlock.Number, u.LastValidBlock.Id, cur, cd.id, jnum, jid), wit(ex))
+						return
+					}
+					kept := client2[:0:0]
+					for _, h := range client2 {
+						if h.num <= jnum {
+							kept = append(kept, h)
+						}
+					}
+					client2 = kept
+				case *pbsubstreamsrpc.Response_BlockScopedData:
+					d := m.BlockScopedData
+					if !sawUndo {
+						viol("reconnect/no-undo-signal", fmt.Sprintf("data for block %d %s arrived without an undo signal although the cursor's block %s is not on the canonical chain", d.Clock.Number, d.Clock.Id, cd.id), wit(ex))
+						return
+					}
+					sawData = true
+					var payload []byte
+					if d.Output != nil && d.Output.MapOutput != nil {
+						payload = d.Output.MapOutput.Value
+					}
+					client2 = append(client2, held{d.Clock.Number, d.Clock.Id, payload})
+				}
+			}
+			if sess2 := rr.Session(); sess2 == nil || sess2.ResolvedStartBlock != jnum+1 {
+				viol("reconnect/wrong-start", fmt.Sprintf("forked cursor: resolved start %v, expected right after the junction (%d)", sess2, jnum+1), wit(ex))
+				return
+			}
+			// the client must now hold the canonical chain with the reference payloads
+			ci := 0
+			for _, id := range chain {
+				var num uint64
+				if n := tree.Node(id); n != nil {
+					num = n.Num
+				} else {
+					fmt.Sscanf(id, "b%d", &num)
+				}
+				if num >= stop {
+					break
+				}
+				if ci < len(client2) && client2[ci].id == id {
+					if !bytes.Equal(client2[ci].payload, ref.Payload[id]) {
+						viol("reconnect/final-chain-differs", fmt.Sprintf("after reconnecting the client holds %s with payload %q, the canonical chain's reference payload is %q", id, client2[ci].payload, ref.Payload[id]), wit(ex))
+						return
+					}
+					ci++
+					continue
+				}
+				if prodMode && sess != nil && num < sess.LinearHandoffBlock && len(ref.Payload[id]) == 0 {
+					continue
+				}
+				viol("reconnect/final-chain-differs", fmt.Sprintf("after reconnecting the client holds %v, canonical chain is %v: block %s is missing or out of place", heldIDs(client2, func(h held) string { return h.id }), chain, id), wit(ex))
+				return
+			}
+			if ci != len(client2) {
+				viol("reconnect/final-chain-differs", fmt.Sprintf("after reconnecting the client holds %v which are not all on the canonical chain %v", heldIDs(client2, func(h held) string { return h.id }), chain), wit(ex))
+				return
+			}
+			c.Count("reconnections_converged", 1)
+		}
 	}
 	if c.WantSample() {
 		c.Sample(wit(nil))
